@@ -94,11 +94,12 @@ NodeName == [ xyz |-> "Xyz", yxy |-> "Yxy", lab |-> "Lab", lch |-> "Lch", luv |-
               okhwb |-> "Okhwb", linsrgb |-> "Rgb", srgb |-> "Rgb", hsl |-> "Hsl", hsv |-> "Hsv", hwb |-> "Hwb",
               linluma |-> "Luma", srgbluma |-> "Luma", lmsvk |-> "Lms", lmsbfd |-> "Lms",
               adobe |-> "Rgb", linadobe |-> "Rgb", p3 |-> "Rgb", linp3 |-> "Rgb", rec2020 |-> "Rgb", linrec2020 |-> "Rgb",
-              rec709 |-> "Rgb", hsv_adobe |-> "Hsv", hsl_p3 |-> "Hsl", hwb_rec2020 |-> "Hwb",
+              rec709 |-> "Rgb", hsv_linsrgb |-> "Hsv", hsl_linsrgb |-> "Hsl", hwb_rec709 |-> "Hwb", hsv_adobe |-> "Hsv", hsl_p3 |-> "Hsl", hwb_rec2020 |-> "Hwb",
               xyz50 |-> "Xyz", lab50 |-> "Lab", lch50 |-> "Lch", luv50 |-> "Luv", prophoto |-> "Rgb", linprophoto |-> "Rgb",
               hsv_prophoto |-> "Hsv", xyzdci |-> "Xyz", labdci |-> "Lab", dcip3 |-> "Rgb", lindcip3 |-> "Rgb" ]
 NodeStd == [ n \in DOMAIN NodeName |-> CASE n \in {"srgb", "hsl", "hsv", "hwb", "srgbluma"} -> "srgb"
-                                            [] n \in {"linsrgb", "linluma"} -> "linear"
+                                            [] n \in {"linsrgb", "linluma", "hsv_linsrgb", "hsl_linsrgb"} -> "linear"
+                                            [] n = "hwb_rec709" -> "rec709"
                                             [] n \in {"adobe", "hsv_adobe"} -> "adobe"
                                             [] n \in {"p3", "hsl_p3"} -> "p3"
                                             [] n \in {"rec2020", "hwb_rec2020"} -> "rec2020"
